@@ -218,19 +218,19 @@ def parse_state(text):
 def printed_values(output, tag):
     """all values TLC printed with PrintT(<<tag, ...>>); robust to line wrapping by bracket matching"""
     res = []
-    key = '<<"%s"' % tag
+    pat = re.compile(r'<<\s*"%s"' % re.escape(tag))
     i = 0
     while True:
-        j = output.find(key, i)
-        if j < 0:
+        m = pat.search(output, i)
+        if not m:
             return res
         p = _P(output)
-        p.i = j
+        p.i = m.start()
         try:
             res.append(p.value())
             i = p.i
         except Exception:
-            i = j + len(key)
+            i = m.end()
 
 
 # ----------------------------------------------------------------------------------------
@@ -380,3 +380,41 @@ class Report:
                 print("MACHINERY-ERROR", self.prop, m[:2000])
             return 2
         return 1 if self.violations else 0
+
+
+# ----------------------------------------------------------------------------------------
+# trace validation in parallel chunks
+
+def validate_trace(tag, module, cfg_text, events, nproc=16, timeout=3600, extra_files=None,
+                   spec_name="TSpec", judged=None):
+    """events: list of dicts each with a unique integer 'id'.  Splits them into chunks, runs one
+    TLC (workers 1) per chunk on trace spec `module`, returns (verdicts, results, problems):
+    verdicts id -> (verdict, detail).  Every judged event must get exactly one verdict and every
+    TLC must consume its whole chunk (postcondition Done), else a machinery problem is reported."""
+    import concurrent.futures as cf
+    if not events:
+        return {}, [], []
+    nproc = max(1, min(nproc, len(events)))
+    chunks = [events[k::nproc] for k in range(nproc)]
+    cfg = "SPECIFICATION %s\nPOSTCONDITION Done\nCHECK_DEADLOCK FALSE\n%s" % (spec_name, cfg_text)
+
+    def one(k):
+        files = {"trace.json": json.dumps(chunks[k])}
+        files.update(extra_files or {})
+        return run_tlc("%s-c%d" % (tag, k), module, cfg, files=files, workers=1, timeout=timeout)
+
+    verdicts, problems, results = {}, [], []
+    with cf.ThreadPoolExecutor(max_workers=nproc) as ex:
+        for k, res in enumerate(ex.map(one, range(nproc))):
+            results.append(res)
+            if not res.ok:
+                problems.append("TLC chunk %d of %s failed (rc=%s): %s" % (k, tag, res.rc, res.errors()[:1500]))
+            for v in printed_values(res.out, "V"):
+                if v[1] in verdicts:
+                    problems.append("duplicate verdict for event %r" % (v[1],))
+                verdicts[v[1]] = (v[2], v[3])
+    want = [e["id"] for e in events if judged is None or judged(e)]
+    missing = [i for i in want if i not in verdicts]
+    if missing:
+        problems.append("%d events of %s got no verdict (first ids %s)" % (len(missing), tag, missing[:5]))
+    return verdicts, results, problems
